@@ -170,8 +170,11 @@ func (c *Case) Ledger() []*Record {
 		if err != nil {
 			continue
 		}
+		if strings.HasPrefix(filepath.Base(f), "files.") {
+			continue
+		}
 		var rec Record
-		if json.Unmarshal(b, &rec) == nil {
+		if json.Unmarshal(b, &rec) == nil && rec.Identity != "" {
 			r = append(r, &rec)
 		}
 	}
